@@ -443,12 +443,27 @@ func c18Run(env *core.Env, c c18Case) (bool, bool) {
 		case "noop":
 			path += ".where(true)"
 		case "indexed":
+		case "element", "element-first":
+			// the path selects one item of the list, not the list: there is nothing to insert into
+			pos := 0
+			for i, sib := range nd.Parent.KidsNamed(nd.Name) {
+				if sib == nd {
+					pos = i
+				}
+			}
+			if c.Form == "element" {
+				path += fmt.Sprintf("[%d]", pos)
+			} else {
+				path += ".first()"
+			}
 		default:
 			return false, false
 		}
 		mkValue(nd.FD)
 		targetFD, targetParent = nd.FD, nd.Parent
-		if value != nil && c.Value == "right" {
+		if c.Form == "element" || c.Form == "element-first" {
+			valid = false
+		} else if value != nil && c.Value == "right" {
 			valid = modelInsert(xnd.Parent.Msg, xnd.FD, proto.Clone(value), c.Index)
 		} else if modelValue != nil {
 			valid = modelInsert(xnd.Parent.Msg, xnd.FD, proto.Clone(modelValue), c.Index)
@@ -876,6 +891,9 @@ func c18Resource(env *core.Env, tn string, seed uint64, rich bool, totality bool
 			l := len(nd.Parent.KidsNamed(nd.Name))
 			for _, idx := range []int{-1, 0, 1, l - 1, l, l + 1, math.MaxInt, math.MinInt} {
 				run(c18Case{Node: ti, Form: []string{"indexed", "noop"}[rng.Intn(2)], Op: "insert", Value: "right", Index: idx})
+			}
+			for _, idx := range []int{0, 1, l} {
+				run(c18Case{Node: ti, Form: []string{"element", "element-first"}[rng.Intn(2)], Op: "insert", Value: "right", Index: idx})
 			}
 			run(c18Case{Node: ti, Form: "indexed", Op: "insert", Value: "wrong", Index: 0})
 			run(c18Case{Node: ti, Form: "indexed", Op: "insert", Value: "nil", Index: 0})
